@@ -119,9 +119,10 @@ func rewrite(t *rapid.T, f *m.F, budget *int) *m.F {
 			}
 			return m.Or(m.Not(c), th)
 		case "pc":
-			n := 0
+			n, extras := 0, 0
 			for _, e := range x.PC {
 				n += len(e.Cs)
+				extras += len(e.Extra)
 			}
 			if n >= 2 && rapid.Bool().Draw(t, "rwSplit") {
 				var parts []*m.F
@@ -129,10 +130,13 @@ func rewrite(t *rapid.T, f *m.F, budget *int) *m.F {
 					for _, c := range e.Cs {
 						parts = append(parts, &m.F{Op: "pc", PC: []m.PCEntry{{Prop: e.Prop, Cs: []m.C{c}}}})
 					}
+					if len(e.Extra) > 0 {
+						parts = append(parts, &m.F{Op: "pc", PC: []m.PCEntry{{Prop: e.Prop, Key: e.Key, Extra: e.Extra}}})
+					}
 				}
 				return m.And(parts...)
 			}
-			if n == 1 {
+			if n == 1 && extras == 0 && len(x.PC) == 1 {
 				e := x.PC[0]
 				c := e.Cs[0]
 				switch c.Kind {
@@ -159,7 +163,7 @@ func genC01(t *rapid.T) c01Case {
 	if mode == "wide" {
 		return genC01Wide(t)
 	}
-	g := &fgen{t: t, maxAtoms: 4, maxDepth: 4, maxWidth: 3, quant: mode == "quantified", edges: 2, budget: 9, companions: true, viaPaths: true}
+	g := &fgen{t: t, maxAtoms: 4, maxDepth: 4, maxWidth: 3, quant: mode == "quantified", edges: 2, budget: 9, companions: true, viaPaths: true, constants: true}
 	if thorough {
 		g.maxDepth, g.maxWidth, g.maxAtoms, g.budget = 6, 4, 5, 14
 	}
@@ -269,6 +273,9 @@ func wideFormula(t *rapid.T, g *fgen) *m.F {
 			a := m.AtomF(g.atom())
 			if rapid.IntRange(0, 4).Draw(t, "negAtom") == 0 {
 				a = m.Not(a)
+			}
+			if rapid.IntRange(0, 9).Draw(t, "constantPart") == 0 {
+				a = g.trueLeaf() // an operand that cannot fail
 			}
 			parts = append(parts, a)
 		}
